@@ -544,11 +544,12 @@ Proof.
   - destruct (a_cache a); destruct (k_copy sp); simpl; rewrite ?Eo; repeat split; auto; try lia; discriminate.
 Qed.
 
-(* C15_noalias: when the conversion hands out copies, or nothing writes into handed-out objects,
-   an object returned earlier keeps its content through every later history *)
-Lemma c15_noalias_step sp writes st objs call :
-  (writes = false \/ k_copy sp = true) -> c15_objs_inv st objs ->
-  let '(st', objs', id) := c15_step sp writes (st, objs) call in
+(* C15_noalias: when the conversion hands out copies (at the Grid or at the UxDataArray level), or
+   nothing writes into handed-out objects, an object returned earlier keeps its content through
+   every later history *)
+Lemma c15_noalias_step sp writes copies st objs call :
+  (writes = false \/ k_copy sp = true \/ copies = true) -> c15_objs_inv st objs ->
+  let '(st', objs', id) := c15_step sp writes copies (st, objs) call in
   c15_objs_inv st' objs' /\ forall i c, c15_obj_get i objs = Some c -> c15_obj_get i objs' = Some c.
 Proof.
   intros Hw [Hreg Hcached]. unfold c15_step.
@@ -564,60 +565,86 @@ Proof.
     - apply Hreg in Hi. lia.
     - simpl in Hi. destruct (Nat.eqb_spec i id) as [->|Hne]; [assumption|]. apply Hreg in Hi. lia. }
   destruct (fst call) as [var|].
-  - destruct writes.
-    + destruct Hw as [Hw|Hw]; [discriminate|]. specialize (Hfresh Hw).
-      split; [split; auto|].
-      * intros i c Hi. destruct (Nat.eq_dec id i) as [<-|Hne].
-        -- assumption.
-        -- rewrite c15_obj_get_addcol in Hi by assumption. eapply R1; eauto.
-      * intros i c Hi. rewrite c15_obj_get_addcol; [apply K1; assumption|].
-        intros <-. apply Hreg in Hi. lia.
-    + split; [split; auto|auto].
+  - destruct copies.
+    + (* the method works on a fresh copy *)
+      split.
+      * split; simpl.
+        -- intros i c Hi. destruct (Nat.eqb_spec i (s_next st')) as [->|Hne]; [lia|].
+           apply R1 in Hi. lia.
+        -- destruct (s_obj st') as [[id' b']|]; auto.
+      * intros i c Hi. simpl. destruct (Nat.eqb_spec i (s_next st')) as [->|Hne].
+        -- apply K1 in Hi. apply R1 in Hi. lia.
+        -- apply K1. assumption.
+    + destruct writes.
+      * destruct Hw as [Hw|[Hw|Hw]]; try discriminate. specialize (Hfresh Hw).
+        split; [split; auto|].
+        -- intros i c Hi. destruct (Nat.eq_dec id i) as [<-|Hne].
+           ++ assumption.
+           ++ rewrite c15_obj_get_addcol in Hi by assumption. eapply R1; eauto.
+        -- intros i c Hi. rewrite c15_obj_get_addcol; [apply K1; assumption|].
+           intros <-. apply Hreg in Hi. lia.
+      * split; [split; auto|auto].
   - split; [split; auto|auto].
 Qed.
 
-Lemma c15_steps_cons sp w so c h :
-  c15_steps sp w so (c :: h) = c15_steps sp w (fst (c15_step sp w so c)) h.
+Lemma c15_steps_cons sp w cp so c h :
+  c15_steps sp w cp so (c :: h) = c15_steps sp w cp (fst (c15_step sp w cp so c)) h.
 Proof. reflexivity. Qed.
 
-Lemma c15_noalias_thm sp writes : (writes = false \/ k_copy sp = true) ->
+Lemma c15_noalias_thm sp writes copies : (writes = false \/ k_copy sp = true \/ copies = true) ->
   forall hist st objs, c15_objs_inv st objs ->
   forall i c, c15_obj_get i objs = Some c ->
-  c15_obj_get i (snd (c15_steps sp writes (st, objs) hist)) = Some c.
+  c15_obj_get i (snd (c15_steps sp writes copies (st, objs) hist)) = Some c.
 Proof.
   intros Hw. induction hist as [|call hist IH]; intros st objs Hinv i c Hi; [exact Hi|].
   rewrite c15_steps_cons.
-  pose proof (c15_noalias_step sp writes st objs call Hw Hinv) as S.
-  destruct (c15_step sp writes (st, objs) call) as [[st' objs'] id]. destruct S as [Hinv' Hk].
+  pose proof (c15_noalias_step sp writes copies st objs call Hw Hinv) as S.
+  destruct (c15_step sp writes copies (st, objs) call) as [[st' objs'] id]. destruct S as [Hinv' Hk].
   cbn [fst]. apply IH; auto.
 Qed.
 
 Lemma c15_noalias_line : forall hist st objs, c15_objs_inv st objs ->
   forall i c, c15_obj_get i objs = Some c ->
-  c15_obj_get i (snd (c15_steps c15_sp_line false (st, objs) hist)) = Some c.
+  c15_obj_get i (snd (c15_steps c15_sp_line false false (st, objs) hist)) = Some c.
 Proof. apply c15_noalias_thm. left; reflexivity. Qed.
 
 Lemma c15_noalias_poly : forall hist st objs, c15_objs_inv st objs ->
   forall i c, c15_obj_get i objs = Some c ->
-  c15_obj_get i (snd (c15_steps c15_sp_poly true (st, objs) hist)) = Some c.
-Proof. apply c15_noalias_thm. right. reflexivity. Qed.
+  c15_obj_get i (snd (c15_steps c15_sp_poly true false (st, objs) hist)) = Some c.
+Proof. apply c15_noalias_thm. right. left. reflexivity. Qed.
+
+(* GeoDataFrame with the repaired UxDataArray.to_geodataframe (column written into a copy) *)
+Lemma c15_noalias_gdf_fixed : forall hist st objs, c15_objs_inv st objs ->
+  forall i c, c15_obj_get i objs = Some c ->
+  c15_obj_get i (snd (c15_steps c15_sp_gdf true true (st, objs) hist)) = Some c.
+Proof. apply c15_noalias_thm. right. right. reflexivity. Qed.
 
 Local Open Scope Z_scope.
 
 (* GeoDataFrame as written: the frame handed out by Grid.to_geodataframe is the cached one and
    UxDataArray.to_geodataframe writes its data column into it *)
 Lemma c15_noalias_gdf_refuted : exists hist,
-  let '(st1, objs1, id) := c15_step c15_sp_gdf c15_da_gdf_writes_column (c15_init, []) (None, c15_mk 1 0 true) in
-  c15_obj_get id (snd (c15_steps c15_sp_gdf c15_da_gdf_writes_column (st1, objs1) hist)) <> c15_obj_get id objs1.
+  let '(st1, objs1, id) := c15_step c15_sp_gdf true false (c15_init, []) (None, c15_mk 1 0 true) in
+  c15_obj_get id (snd (c15_steps c15_sp_gdf true false (st1, objs1) hist)) <> c15_obj_get id objs1.
 Proof. exists [(Some 5, c15_mk 1 0 true)]. vm_compute. discriminate. Qed.
 
 (* and the result of a data conversion depends on earlier conversions of other variables *)
 Lemma c15_gdf_columns_refuted :
-  let '(s1, o1, id1) := c15_step c15_sp_gdf c15_da_gdf_writes_column (c15_init, []) (Some 5, c15_mk 1 0 true) in
-  let '(s2, o2, id2) := c15_step c15_sp_gdf c15_da_gdf_writes_column (s1, o1) (Some 6, c15_mk 1 0 true) in
-  let '(s3, o3, id3) := c15_step c15_sp_gdf c15_da_gdf_writes_column (c15_init, []) (Some 6, c15_mk 1 0 true) in
+  let '(s1, o1, id1) := c15_step c15_sp_gdf true false (c15_init, []) (Some 5, c15_mk 1 0 true) in
+  let '(s2, o2, id2) := c15_step c15_sp_gdf true false (s1, o1) (Some 6, c15_mk 1 0 true) in
+  let '(s3, o3, id3) := c15_step c15_sp_gdf true false (c15_init, []) (Some 6, c15_mk 1 0 true) in
   c15_obj_get id2 o2 <> c15_obj_get id3 o3.
 Proof. vm_compute. discriminate. Qed.
+
+(* with the repaired method the frame returned for a variable carries that variable's column only *)
+Lemma c15_gdf_columns_fixed : forall st objs var a,
+  let '(st', objs', id) := c15_step c15_sp_gdf true true (st, objs) (Some var, a) in
+  exists built, c15_obj_get id objs' = Some (built, [var]).
+Proof.
+  intros st objs var a. unfold c15_step. cbn [fst snd].
+  destruct (c15_call c15_sp_gdf st a) as [[built id] st'].
+  exists built. simpl. rewrite Nat.eqb_refl. reflexivity.
+Qed.
 
 (* ------------------------------------------------------------------------- *)
 (* non-vacuity                                                                 *)
